@@ -391,6 +391,10 @@ def run(ctx, chk):
     C03.r1(ctx, chk, "C13.1")
     from . import C07
     C07.r6_reversed_table(ctx, chk, "C13.pre:C07.6")        # the backward search must treat labels as opaque (an action named "" is an action)
+    # ... and be complete: a search that drops states depending on the order in which predecessors are listed (a `break` at the
+    # first visited one) makes the sweep domain - hence every value - depend on how the states are numbered
+    C07.r2_roots(ctx, chk, "C13.pre:C07.2")
+    C07.r35_worklist(ctx, chk, "C13.pre:C07.3", "C13.pre:C07.5")
     C03.r23(ctx, chk, "C13.pre:C03.2", "C13.pre:C03.3")     # a conditioning that merges or drops transitions depends on their order
     r2_consumers(ctx, chk)
     shared.rule_node_keeps_transitions(ctx, chk, "C13.pre:C01.2")
